@@ -739,6 +739,11 @@ pub fn diff_tree(h: &Harness, model: &ModelTree, last_cmd: &BTreeMap<String, &'s
 /// Applies the patches of `body` in order. `strict` = C03's oracle (success and exact tree after
 /// every link); otherwise only the relaxed C17 rule: Ok implies the reference tree.
 pub fn run_patches(h: &mut Harness, body: &C03Doc, strict: bool, intact: &[bool]) -> PatchRun {
+    run_patches_opts(h, body, strict, intact, false)
+}
+
+/// `prestored`: the patch files are already on the simulated disk (possibly damaged or absent).
+pub fn run_patches_opts(h: &mut Harness, body: &C03Doc, strict: bool, intact: &[bool], prestored: bool) -> PatchRun {
     let mut model = initial_model(&body.pre, &body.pre_dirs);
     let mut last_cmd: BTreeMap<String, &'static str> = BTreeMap::new();
     let pre_bytes = h.fs.total_file_bytes(DATA);
@@ -854,7 +859,7 @@ pub fn run_patches(h: &mut Harness, body: &C03Doc, strict: bool, intact: &[bool]
                 _ => {}
             }
         }
-        if h.fs.h_len(&ppath).is_none() {
+        if !prestored {
             h.fs.h_write(&ppath, enc.bytes.clone());
         }
         let _ = plen;
